@@ -90,12 +90,14 @@ def _invoke_fn(klong, fn, args):
     return klong.call(KGCall(inner, list(args), len(args)))
 
 
-def _is_single_precision(y, backend):
-    """True when a function value came back in float32: the function computed (partly) in
-    single precision, e.g. on torch, whose default float is float32, and a 1e-6 step would be
-    below the resolution of its values."""
-    y = backend.to_numpy(y) if backend.is_backend_array(y) else y
-    return getattr(y, 'dtype', None) == np.float32
+def _default_eps(float_dtype, backend):
+    """Step for central differences.  1e-6 suits double precision.  A backend with autograd (torch)
+    computes in float32 by default, so parts of the function may be rounded to single precision
+    even when the point is float64 (a join, a take, a constant folded by torch): there a 1e-6 step
+    is below the resolution of the values and 1e-4 is used, as for a float32-only device."""
+    if float_dtype == np.float32 or backend.supports_autograd():
+        return 1e-4
+    return 1e-6
 
 
 def numeric_grad(func, x, backend, eps=None):
@@ -103,9 +105,8 @@ def numeric_grad(func, x, backend, eps=None):
     # Get appropriate float dtype
     float_dtype = _get_float_dtype(backend)
 
-    # Use larger epsilon for float32 to maintain precision
     if eps is None:
-        eps = 1e-4 if float_dtype == np.float32 else 1e-6
+        eps = _default_eps(float_dtype, backend)
 
     # Convert backend tensors to numpy for gradient computation
     if backend.is_backend_array(x):
@@ -113,9 +114,6 @@ def numeric_grad(func, x, backend, eps=None):
     # work on a private copy: np.asarray would alias a caller's float array, and a
     # failing func would leave the caller's parameter perturbed
     x = np.array(x, dtype=float_dtype)
-
-    if eps == 1e-6 and _is_single_precision(func(_to_func_input(x.copy(), backend)), backend):
-        eps = 1e-4
 
     grad = np.zeros_like(x, dtype=float_dtype)
     it = np.nditer(x, flags=['multi_index'], op_flags=['readwrite'])
@@ -165,7 +163,7 @@ def numeric_jacobian(func, x, backend, eps=None):
     """
     float_dtype = _get_float_dtype(backend)
     if eps is None:
-        eps = 1e-4 if float_dtype == np.float32 else 1e-6
+        eps = _default_eps(float_dtype, backend)
 
     # Convert to numpy
     if backend.is_backend_array(x):
@@ -174,8 +172,6 @@ def numeric_jacobian(func, x, backend, eps=None):
 
     # Evaluate function at x to get output shape
     f0 = func(_to_func_input(x.copy(), backend))
-    if eps == 1e-6 and _is_single_precision(f0, backend):
-        eps = 1e-4
     if backend.is_backend_array(f0):
         f0 = backend.to_numpy(f0)
     f0 = np.asarray(f0, dtype=float_dtype).flatten()
